@@ -1,3 +1,7 @@
+// NOT A DEFECT (kept as a record): this history hands the tree sequence numbers that were not drawn from the counter given
+// to Config, so the version installed by the compaction carries a smaller seqno than the data and the read at 7 is served
+// by the *new* version.  Under the usage protocol of C02 (see F7_protocol_conforming_snapshot.rs, which passes on the
+// unmodified code) a snapshot is served by the super version current when it was taken.
 // F7 candidate: CompactionStream::next drains every version of a key whose seqno is below the GC watermark as soon as
 // *any* newer version exists - even when that newer version is itself invisible to a live snapshot.  Protocol of C02: the
 // watermark is strictly below every snapshot in use.
